@@ -113,31 +113,56 @@ def c10 (p : Panel) (a : List String) (evs : List Ev) (acts : Option (List Act))
 
 /-! ## C11 — reset pulse -/
 
-/-- scan an op's events: every RST-low must be preceded by RST-high (+ optional delay), followed
-    by a non-zero delay, RST-high, a non-zero delay; no SPI transfer while low or before the
-    settle delay ends; the line is left high.  `first` = no SPI transfer before the pulse. -/
+/-- phases of the reset-pulse automaton -/
+inductive Ph | idle | low | lowWaited | highAgain
+  deriving DecidableEq, Repr, Inhabited
+
+structure RState where
+  ph : Ph := .idle
+  high : Bool := false      -- RST has been driven high (before the pulse)
+  spi : Bool := false       -- an SPI transfer has been seen
+  pulses : Nat := 0
+  errs : List String := []
+  deriving Repr, Inhabited
+
+def isSpi : Ev → Bool
+  | .w .. => true
+  | .fail .. => true
+  | _ => false
+
+/-- one event of the automaton: RST high, [delay], RST low, delay > 0, RST high, delay > 0; no SPI
+    transfer from RST low until the settle delay is over; with `first`, none before the pulse -/
+def c11Step (first : Bool) (s : RState) (e : Ev) : RState :=
+  match s.ph, e with
+  | .idle, .rst true => { s with high := true }
+  | .idle, .rst false =>
+    { s with ph := .low,
+             errs := s.errs ++ (if !s.high then ["reset-not-driven-high-first"] else []) ++
+                     (if first && s.spi && s.pulses == 0 then ["spi-before-reset"] else []) }
+  | .idle, ev => if isSpi ev then { s with spi := true } else s
+  | .low, .delay _ d => { s with ph := .lowWaited, errs := s.errs ++ (if d = 0 then ["zero-low-time"] else []) }
+  | .low, .rst true => { s with ph := .highAgain, errs := s.errs ++ ["low-time-not-waited"] }
+  | .low, ev => { s with errs := s.errs ++ [if isSpi ev then "spi-while-reset-low" else "malformed-pulse"] }
+  | .lowWaited, .rst true => { s with ph := .highAgain }
+  | .lowWaited, ev => { s with errs := s.errs ++ [if isSpi ev then "spi-while-reset-low" else "malformed-pulse"] }
+  | .highAgain, .delay _ d =>
+    { s with ph := .idle, high := true, pulses := s.pulses + 1,
+             errs := s.errs ++ (if d = 0 then ["zero-settle-time"] else []) }
+  | .highAgain, ev =>
+    { s with ph := .idle, high := true, pulses := s.pulses + 1, spi := s.spi || isSpi ev,
+             errs := s.errs ++ [if isSpi ev then "spi-before-settle-time" else "settle-time-not-waited"] }
+
+def c11Run (first : Bool) (evs : List Ev) : RState := evs.foldl (c11Step first) {}
+
+/-- reasons why an operation's events do not contain only well-formed reset pulses -/
+def c11Core (first : Bool) (evs : List Ev) : List String :=
+  let s := c11Run first evs
+  s.errs ++ (if s.ph ≠ .idle then ["reset-left-low-or-incomplete"] else []) ++
+    (if s.pulses = 0 then ["no-reset-pulse"] else [])
+
 def c11 (p : Panel) (a : List String) (evs : List Ev) (mustBeFirst : Bool) : List String :=
   let site := s!"{p.name}/{opName a}"
-  let isW (e : Ev) : Bool := match e with | .w .. => true | .fail .. => true | _ => false
-  let rec go : List Ev → Bool → Bool → Nat → List String
-    -- args: remaining, seenHighBefore, spiSeen, pulses
-    | [], _, _, n => if n = 0 then [s!"site={site} reason=no-reset-pulse got=none want=pulse"] else []
-    | .rst false :: rest, high, spi, n =>
-      let r0 := if !high then [s!"site={site} reason=reset-not-driven-high-first got=low want=high-then-low"] else []
-      let r1 := if mustBeFirst ∧ spi ∧ n = 0 then [s!"site={site} reason=spi-before-reset got=transfer want=pulse-first"] else []
-      match rest with
-      | .delay _ d :: .rst true :: .delay _ s :: rest' =>
-        let r2 := if d = 0 then [s!"site={site} reason=zero-low-time got=0 want>0"] else []
-        let r3 := if s = 0 then [s!"site={site} reason=zero-settle-time got=0 want>0"] else []
-        r0 ++ r1 ++ r2 ++ r3 ++ go rest' true spi (n + 1)
-      | _ =>
-        let what := match rest with
-          | e :: _ => if isW e then "spi-while-reset-low" else "low-time-not-waited"
-          | [] => "reset-left-low"
-        r0 ++ r1 ++ [s!"site={site} reason={what} got=malformed want=low,delay,high,delay"]
-    | .rst true :: rest, _, spi, n => go rest true spi n
-    | e :: rest, high, spi, n => go rest high (spi || isW e) n
-  go evs false false 0
+  (c11Core mustBeFirst evs).map fun r => s!"site={site} reason={r} got=malformed want=high,low,wait>0,high,wait>0,then-spi"
 
 /-! ## C18 — protocol conformance -/
 
